@@ -12,6 +12,7 @@ import (
 	"strings"
 	"sync"
 	"sync/atomic"
+	"time"
 
 	"google.golang.org/grpc/status"
 
@@ -124,6 +125,16 @@ func only(lo, hi int) (int, int) {
 		hi = lo + 1
 	}
 	return lo, hi
+}
+
+// offerDelay: 0 = the master sends the offers inside the REVIVE call (default). VERIF_OFFER_DELAY_MS=n
+// makes them follow n ms later from another goroutine, as a real master's allocation cycle would.
+func offerDelay() time.Duration {
+	ms := 0
+	if v := os.Getenv("VERIF_OFFER_DELAY_MS"); v != "" {
+		fmt.Sscan(v, &ms)
+	}
+	return time.Duration(ms) * time.Millisecond
 }
 
 func debugOn() bool { return os.Getenv("VERIF_DEBUG") != "" }
